@@ -68,8 +68,12 @@ func (r listReflect) Equals(other List) bool {
 	return r.EqualsUsing(HeapAllocator, other)
 }
 func (r listReflect) EqualsUsing(a Allocator, other List) bool {
-	if otherReflectList, ok := other.(*listReflect); ok {
-		return reflect.DeepEqual(r.Value.Interface(), otherReflectList.Value.Interface())
+	// Identical Go data denotes equal lists, but different Go data may too
+	// (a nil and an empty slice behind an omitempty field, []int32 and []int64):
+	// only the positive answer of DeepEqual can be trusted.
+	if otherReflectList, ok := other.(*listReflect); ok &&
+		reflect.DeepEqual(r.Value.Interface(), otherReflectList.Value.Interface()) {
+		return true
 	}
 	return ListEqualsUsing(a, &r, other)
 }
